@@ -95,7 +95,9 @@ def _retry_counter(R, P, rt, aug, exprs, inst):
     probs = []
     if step != 1 or init is None:
         probs.append((f'counter init={init} step={step}', aug.ast))
-    if not aug.in_handlers:
+    handler_ids = {h.id for h in rt.cfg.nodes if h.kind == 'handler'}
+    if not aug.in_handlers and aug.id in rt.cfg.reachable(removed_nodes=handler_ids):
+        # (an increment at the end of the loop body is fine when only a timed-out attempt gets there)
         probs.append(('attempts are counted outside the timeout handler', aug.ast))
     if not tests:
         R.fail('C19.LOP.1', inst, rt.qual, aug.ast, 'the attempt counter is never compared with retry_times: the fetch never gives up', site(rt, aug.ast))
@@ -254,6 +256,13 @@ def _rest(R, P, g, rt, exprs):
         # initial values
         inits = [(n, n.ast.value.value) for n in g.cfg.nodes if n.kind == 'stmt' and isinstance(n.ast, ast.Assign)
                  and len(n.ast.targets) == 1 and ast.unparse(n.ast.targets[0]) == sv and isinstance(n.ast.value, ast.Constant)]
+        # ... or handed over through another local (`first = 1 / 0 ... seg = first`): the constants that local is bound to, where it is bound
+        for n in g.cfg.nodes:
+            if n.kind == 'stmt' and isinstance(n.ast, ast.Assign) and len(n.ast.targets) == 1 and ast.unparse(n.ast.targets[0]) == sv \
+                    and isinstance(n.ast.value, ast.Name):
+                for s_ in g.sources(n, n.ast.value):
+                    if s_.kind == 'expr' and isinstance(s_.expr, ast.Constant) and s_.node is not None:
+                        inits.append((s_.node, s_.expr.value))
         zero_tests = [t for t in g.cfg.nodes if t.kind == 'test' and isinstance(t.ast, ast.Compare) and 'to_number' in ast.unparse(t.ast)
                       and isinstance(t.ast.comparators[0], ast.Constant) and t.ast.comparators[0].value == 0 and isinstance(t.ast.ops[0], ast.Eq)]
         if sorted(v for (_, v) in inits) != [0, 1] or len(zero_tests) != 1:
